@@ -21,10 +21,13 @@ class CancelledByPlan(asyncio.CancelledError):
 
 def _throwable(rt: Runtime, kind: str) -> BaseException:
     if kind == "Cancelled":
-        return asyncio.CancelledError()
-    if kind == "GenExit":
-        return GeneratorExit()
-    return FAULT_CLASSES[kind]("thrown")
+        exc = asyncio.CancelledError()  # type: BaseException
+    elif kind == "GenExit":
+        exc = GeneratorExit()
+    else:
+        exc = FAULT_CLASSES[kind]("thrown")
+    rt.faults[0] = exc
+    return exc
 
 
 class SingleSched:
